@@ -454,3 +454,64 @@ Proof.
   - intros intf mac op dst E. apply arp_reply_iff in E. destruct E as [_ [_ E]]. rewrite SA in E. discriminate.
   - intros y Hy Ei. apply (x_silent i evs' x1 I1 NH1 F y Hy Ei).
 Qed.
+
+(* ---------- the packet log grows by suffixes (statement-quality audit T6) ---------- *)
+(* what one step appends to the log, and what is known about it *)
+Lemma sent_step_app x e : exists new, sent (xstep x e) = (sent x ++ new)%list /\
+  (inv (base x) -> forall y, In y new ->
+     (exists svc b, holds (base x) svc b /\ a_ip b = snd y) /\
+     In (snd (fst y)) (if fst (fst y) then arps (base x) else ndps (base x))).
+Proof.
+  destruct e as [name a|name| |ex|ar nd|q]; cbn [xstep sent];
+    try (exists []; rewrite app_nil_r; split; [reflexivity|intros _ y []]).
+  - destruct (queue x) as [|a q]; [exists []; rewrite app_nil_r; split; [reflexivity|intros _ y []]|]. cbn [sent].
+    destruct (spam_known (a_ip a) (spam x)); [exists []; rewrite app_nil_r; split; [reflexivity|intros _ y []]|].
+    eexists. split; [reflexivity|]. intros I y Hy. destruct (send_in _ _ _ I Hy) as [_ [A [_ B]]]. split; assumption.
+  - eexists. split; [reflexivity|]. intros I y Hy. apply in_flat_map in Hy. destruct Hy as [en [_ Hy]].
+    destruct (send_in _ _ _ I Hy) as [_ [A [_ B]]]. split; assumption.
+Qed.
+
+(* nobody holds i and i is not announced again: the log only grows by packets for OTHER addresses *)
+Lemma x_silent_strong i evs : forall x, inv (base x) -> (forall svc b, holds (base x) svc b -> a_ip b <> i) ->
+  Forall (not_set_of i) evs ->
+  exists new, sent (xrun evs x) = (sent x ++ new)%list /\ forall y, In y new -> snd y <> i.
+Proof.
+  induction evs as [|e evs IH]; intros x I NH F.
+  - exists []. rewrite app_nil_r. split; [reflexivity|intros y []].
+  - inversion F; subst. cbn [xrun fold_left].
+    destruct (sent_step_app x e) as [n1 [E1 P1]].
+    destruct (IH (xstep x e)) as [n2 [E2 P2]]; [apply xinv_step; exact I|apply no_holder_step; assumption|assumption|].
+    exists (n1 ++ n2)%list. split.
+    + unfold xrun in E2. rewrite E2, E1, app_assoc. reflexivity.
+    + intros y Hy. apply in_app_or in Hy. destruct Hy as [Hy|Hy]; [|apply P2; exact Hy].
+      destruct (P1 I y Hy) as [[svc [b [Hh Eb]]] _]. intros E. apply (NH svc b Hh). congruence.
+Qed.
+
+Lemma t_x_unsolicited_sound_app ar nd evs e : let x := xrun evs (xinit ar nd) in
+  exists new, sent (xstep x e) = (sent x ++ new)%list /\
+    forall y, In y new ->
+      (exists svc b, holds (base x) svc b /\ a_ip b = snd y) /\
+      In (snd (fst y)) (if fst (fst y) then arps (base x) else ndps (base x)).
+Proof.
+  intros x. destruct (sent_step_app x e) as [new [E P]]. exists new. split; [exact E|].
+  apply P. apply xinv_reached.
+Qed.
+
+Lemma t_x_withdraw_last_app ar nd evs name i evs' : let x := xrun evs (xinit ar nd) in
+  (forall svc a, holds (base x) svc a -> a_ip a = i -> svc = name) ->
+  Forall (not_set_of i) evs' ->
+  let x' := xrun evs' (xstep x (XDel name)) in
+  (forall intf, should_announce (base x') i intf = DAnnounceIP) /\
+  (forall intf mac op dst, arp_process (base x') intf mac op dst i <> DNone) /\
+  (exists new, sent x' = (sent x ++ new)%list /\ forall y, In y new -> snd y <> i).
+Proof.
+  intros x Only F x'. destruct (t_x_withdraw_last ar nd evs name i evs' Only F) as [A [B _]].
+  split; [exact A|]. split; [exact B|].
+  pose proof (xinv_reached ar nd evs) as I. fold x in I.
+  set (x1 := xstep x (XDel name)).
+  assert (I1 : inv (base x1)) by (apply xinv_step; exact I).
+  assert (NH1 : forall svc b, holds (base x1) svc b -> a_ip b <> i).
+  { intros svc b Hh E. cbn [x1 xstep base] in Hh. apply (holds_delete name (base x) svc b I) in Hh.
+    destruct Hh as [Hne Hh]. apply Hne. eapply Only; eauto. }
+  exact (x_silent_strong i evs' x1 I1 NH1 F).
+Qed.
